@@ -89,11 +89,13 @@ def gen_cases(rng, tier, per_fn=None):
     cases = []
     for fn in pl.FUNCS:
         ka, kb = pl.kinds_of(fn)
-        uniq = list(dict.fromkeys(pl.stream_mix(ka, kb)))      # applicable streams, in a fixed order
+        mix = sorted(pl.stream_mix(ka, kb))
+        step = max(1, len(mix) // max(1, n))
         for k in range(n):
-            # quick tier: stratified (round-robin over the applicable streams, so that every stream -- also the rarely drawn
-            # structural ones -- is present for every function); thorough tier: weighted random mix
-            stream = uniq[k % len(uniq)] if tier == "quick" else None
+            # quick tier: stratified (round-robin through the weighted stream list of the pair of kinds, so that every
+            # stream -- also the rarely drawn structural ones -- is present for every function in proportion to its
+            # weight); thorough tier: weighted random mix
+            stream = mix[(k * len(mix)) // n] if tier == "quick" and n >= len(set(mix)) else None
             cases.append(pl.gen_pair(rng, fn, stream))
     return cases
 
